@@ -12,7 +12,7 @@
 From Coq Require Import ZArith List Bool Reals Lra.
 From Coquelicot Require Import Coquelicot.
 From MJV Require Import Lib.Num Lib.NumR Model.Spatial Proof.SpatialProof Model.Kinematics Proof.KinematicsProof.
-From MJV Require Import Model.EqPoly Proof.EqPolyProof.
+From MJV Require Import Model.EqPoly Proof.EqPolyProof Model.LimitRow Proof.LimitRowProof.
 Open Scope R_scope.
 
 (* ---- frames, no hypothesis on the inputs: whenever the recursion returns (no mjERROR), one frame per body
@@ -154,6 +154,20 @@ Theorem C07_eq_poly_row :
               (nth k (eqRow jac0 jac1 (eqDeriv c1 c2 c3 c4 (f1 x) ref1)) 0).
 Proof. exact eq_poly_row. Qed.
 Print Assumptions C07_eq_poly_row.
+
+(* ---- address spaces of a constraint row: the dense limit row of a ball joint (mj_instantiateLimit) carries minus the rotation
+   axis at the three columns of the joint's DOFS, jnt_dofadr .. jnt_dofadr+2, and zeros elsewhere (the qpos address of the
+   joint, where its quaternion is read, differs from the dof address as soon as a free or ball joint precedes it).  That
+   -axis is the derivative of the limit distance is covered in the radial direction by C08_spring_gradient_ball_partial's
+   closed form and otherwise by the finite-difference oracle. *)
+Theorem C07_ball_limit_row_columns :
+  forall (nv dofadr : nat) (q : quat R) (r0 r1 : R) (k : nat),
+    (dofadr + 3 <= nv)%nat -> (k < nv)%nat ->
+    nth k (ballLimitRow nv dofadr q r0 r1) 0 =
+      if Nat.leb dofadr k && Nat.ltb k (dofadr + 3)
+      then - nth (k - dofadr) (v2l (snd (ballLimit q r0 r1))) 0 else 0.
+Proof. exact ballLimitRow_columns. Qed.
+Print Assumptions C07_ball_limit_row_columns.
 
 (* ---- the hypotheses are satisfiable by non-trivial data *)
 Example C07_goodQV_example :
